@@ -536,7 +536,7 @@ def run(prog, tier):
             elif mention:
                 nsz += 1
                 res.viol('reported-size', inst, g_.loc(), 'the reported size is %s, not the size of %s, which the positional accessor indexes: positions between the reported and the real size return an element '
-                         'instead of throwing std::out_of_range, and every search that runs to the reported size stops short' % (rets, mention[0]), function=g_.sig, expr='size:' + m['name'])
+                         'instead of throwing std::out_of_range, and every search that runs to the reported size stops short' % (rets, mention[0]), function=g_.sig, expr='size:' + m['name'], sure=True)
     res.minimum('size accessors of positionally indexed containers', nsz, 5)
     res.minimum('positional accessors', len(positional), 15)
     res.minimum('index-by-name functions', len(idxfns), 4)
